@@ -13,17 +13,24 @@ SameEvents(ml, gl) ==
   /\ \A k \in DOMAIN ml : /\ ml[k].n = gl[k].n /\ ml[k].ok = gl[k].ok
                           /\ ml[k].ls = gl[k].ls
                           /\ (ml[k].n \in {"VSet", "Push", "Pt"} => ml[k].a = gl[k].a)
+\* What the property fixes: a string of the standard grammar that the model accepts must be accepted (C05: every
+\* standard spelling parses); a string that is grammatical but semantically inconsistent (mixed dimensions, unclosed or
+\* short rings, one-point lines, bad arity - the model's sem = "rej") must be rejected.  A string OUTSIDE the model's
+\* grammar that the implementation chooses to accept is not an alarm as long as the result is consistent and stable
+\* (a more lenient lexer or grammar does not break the property).
+Agree(r, f) == (r.vclass = "acc") = (Verdict(f) = "acc")
 Clause(r, f) ==
   CASE r.ev # "ok" -> r.ev
     [] r.vclass = "panic" -> "panic"
     [] ~r.errok -> "error-not-renderable"
-    [] Verdict(f) # r.vclass -> "verdict:" \o r.vclass \o "-want-" \o Verdict(f)
-    [] ~r.weak /\ ~SameEvents(f.log, r.events) -> "validator-events"
-    [] r.vclass = "acc" /\ r.l # FinalLayout(f) -> "layout"
+    [] r.vclass # "acc" /\ Verdict(f) = "acc" -> "verdict:" \o r.vclass \o "-want-acc"
+    [] r.vclass = "acc" /\ f.st = "acc" /\ f.sem # "ok" -> "verdict:acc-want-rej"
+    [] Agree(r, f) /\ ~r.weak /\ ~SameEvents(f.log, r.events) -> "validator-events"
+    [] r.vclass = "acc" /\ Agree(r, f) /\ r.l # FinalLayout(f) -> "layout"
     [] r.vclass = "acc" /\ ~r.uniform -> "mixed-layouts-in-result"
-    [] r.vclass = "acc" /\ r.hastoks /\ r.tree # Tree(r.toks) -> "tree"
+    [] r.vclass = "acc" /\ Agree(r, f) /\ r.hastoks /\ r.tree # Tree(r.toks) -> "tree"
     [] r.vclass = "acc" /\ (r.tree2 # r.tree \/ r.l2 # r.l) -> "reencode-reparse"
-    [] r.vclass = "acc" /\ r.hastoks /\ r.ltoks # r.want -> "lexer-tokens"
+    [] r.vclass = "acc" /\ Agree(r, f) /\ r.hastoks /\ r.ltoks # r.want -> "lexer-tokens"
     [] OTHER -> "ok"
 VARIABLES i, bad
 Init == i = 1 /\ bad = 0
